@@ -21,7 +21,7 @@ class Scenario:
     hosts: list of host names (as they appear in the connection string, with or without :port - see conn_hosts)
     payloads: dict host(without port) -> bytes served for /logs/mongodb.gz
     auth: "digest" | "none" (no challenge: serves at once) | "basic" (challenges with Basic) | "reject" (401 even after a correct
-          digest response) | "digest_unknown" (a Digest challenge with an unknown directive)
+          digest response) | "digest_unknown" (a Digest challenge with an unknown directive) | "digest_bare" (a Digest challenge with a directive that has no '=')
     faults: dict request_key -> fault, request_key = "cluster" or host name (without port); fault =
           ("status", code, echo_headers) | ("reset",) | ("cut", nbytes) | ("nolength_cut", nbytes)"""
 
@@ -199,19 +199,22 @@ class FakeAtlas:
                 with self.lock:
                     self.once_used.add(key)
         # --- authentication
-        if sc.auth in ("digest", "reject", "digest_unknown") and not auth:
+        if sc.auth in ("digest", "reject", "digest_unknown", "digest_bare") and not auth:
             nonce = hashlib.sha1(os.urandom(16)).hexdigest()
             with self.lock:
                 self.nonces.add(nonce)
             ch = 'Digest realm="MMS Public API", domain="", nonce="%s", algorithm=MD5, qop="auth", stale=false' % nonce
             if sc.auth == "digest_unknown":
                 ch += ", charset=UTF-8"
+            if sc.auth == "digest_bare":
+                # a directive without '=' (some proxies shorten stale=false to a bare flag)
+                ch = ch.replace(", stale=false", ", stale")
             rec["challenged"] = True
             return send(401, b'{"error":401,"reason":"Unauthorized"}', ["WWW-Authenticate: " + ch, "Content-Type: application/json"])
         if sc.auth == "basic" and not auth:
             rec["challenged"] = "basic"
             return send(401, b'{"error":401}', ['WWW-Authenticate: Basic realm="MMS Public API"'])
-        if sc.auth == "reject" or (sc.auth in ("digest", "digest_unknown") and not rec["digest_ok"]) or (sc.auth == "basic" and auth):
+        if sc.auth == "reject" or (sc.auth in ("digest", "digest_unknown", "digest_bare") and not rec["digest_ok"]) or (sc.auth == "basic" and auth):
             rec["rejected"] = True
             return send(401, b'{"error":401,"reason":"Unauthorized","detail":"bad credentials"}', ["Content-Type: application/json"])
         rec["served"] = True
